@@ -44,6 +44,7 @@ type ctx struct {
 	cur     int // current shard for sticky (stateful) traces
 	sticky  bool
 	replay  string
+	repo    string // root of the (scratch copy of the) repository, for re-driving its vector files
 	verbose bool
 	seen    map[uint64]struct{}
 	dups    int
@@ -120,6 +121,8 @@ func (c *ctx) E(ev string, kv ...any) {
 
 func writeVal(sb *strings.Builder, v any) {
 	switch t := v.(type) {
+	case rawJSON:
+		sb.WriteString(string(t))
 	case string:
 		sb.WriteString(strconv.Quote(t))
 	case int:
@@ -190,6 +193,7 @@ func main() {
 	fs.StringVar(&c.outDir, "out", ".", "output directory for shard-XX.ndjson")
 	fs.IntVar(&c.shards, "shards", 1, "number of shards")
 	fs.StringVar(&c.replay, "replay", "", "re-execute the events of this ndjson file instead of generating")
+	fs.StringVar(&c.repo, "repo", ".", "repository root (for vector files)")
 	fs.BoolVar(&c.verbose, "v", false, "verbose")
 	_ = fs.Parse(os.Args[2:])
 	c.open()
